@@ -1503,6 +1503,18 @@ def corr_malformed(ctx):
     for d in base:
         cases += [d[:k] for k in sorted(set(rng.sample(range(0, len(d)), min(12, len(d)))))]
         cases += [bytes([v]) + d[1:] for v in (0, 1, 3, 255)]
+    # version-0 packs cut at EVERY position of the order block and one byte around it: the reader takes `data[j], data[j + 1]`
+    # two at a time (exact reads of the model: `readPairsV0`), so a cut inside a pair is an over-read of the second byte
+    for s_ in ['CCO', 'CC(C)CC=O', 'C1CCCCC1CCCCCC', 'C/C=C/C=C/C']:
+        m = molgen.parse(s_)
+        if m is None:
+            continue
+        d2 = bytes(m.pack(compressed=False))
+        d0 = to_v0(m, d2)
+        na, nb = len(m._atoms), sum(len(x) for x in m._bonds.values()) // 2
+        lo = 4 + 9 * na + 3 * nb
+        hi = lo + 2 * ((nb + 4) // 5)
+        cases += [d0[:k] for k in range(max(lo - 1, 0), min(hi + 2, len(d0) + 1))]
     for d in cases:
         rd = real_decode_raw(list(d))
 
